@@ -40,19 +40,12 @@ def histNames (hist : String) : List String :=
 
 def chainOf (hist : String) : Spec.ChainParams := (runHistory (histNames hist)).params
 
-def coreKind : CoreObj → String
-  | .full _ => "same-object"
-  | .coreOnly _ => "core-only"
 
 /-- address, its text and its scriptPubKey under `chain` -/
 def showFull (chain : Spec.ChainParams) (r : Res Addr) : String :=
   match r with
   | .error e => "err:" ++ e.family
   | .ok a => showAddr a ++ "|" ++ showRes String.ofList (toText H chain a) ++ "|" ++ showRes toHex (toScript chain a)
-
-def className : AddrClass → String
-  | .p2pkh => "P2PKHBitcoinAddress" | .p2sh => "P2SHBitcoinAddress"
-  | .p2wpkh => "P2WPKHBitcoinAddress" | .p2wsh => "P2WSHBitcoinAddress"
 
 /-- observers of one address instance under the currently selected chain, in the given order -/
 def observe (chain : Spec.ChainParams) (a : Addr) (obs : String) : String :=
@@ -62,9 +55,10 @@ def observe (chain : Spec.ChainParams) (a : Addr) (obs : String) : String :=
     | 'b' => toHex a.payload
     | 'k' => showRes toHex (toScript chain a)
     | 'v' => toString a.ver
-    | 'r' => showRes (fun t => className a.cls ++ "('" ++ String.ofList t ++ "')") (toText H chain a)
-    | 'e' => "True"                          -- a == bytes(a)
-    | 'h' => "True"                          -- hash(a) == hash(bytes(a))
+    -- repr / == / hash are EVENTS only (they may fill caches); their values are not constrained by the property
+    | 'r' => "ok"
+    | 'e' => "ok"
+    | 'h' => "ok"
     | _ => "?"
 
 /-- one step of a history; state = selected chain and the last address object created -/
@@ -128,8 +122,11 @@ def handle (op : String) (args : List String) : Option String :=
       let outs := match splitList hist ',' with
         | "@fresh" :: _ => outs
         | _ => outs.drop 1
-      st.params.name ++ "," ++ st.coreparams.fields.name ++ "," ++ coreKind st.coreparams ++ "," ++
-        st.params.bech32Hrp ++ "," ++ toString st.params.pubkeyAddr ++ "," ++ toString st.params.scriptAddr ++
+      -- the VALUES both globals expose (never whether they are one object): address/network fields of
+      -- bitcoin.params, consensus fields of bitcoin.core.coreparams
+      st.params.name ++ "," ++ st.params.bech32Hrp ++ "," ++ toString st.params.pubkeyAddr ++ "," ++
+        toString st.params.scriptAddr ++ ";" ++ st.coreparams.fields.name ++ "," ++
+        toString st.coreparams.fields.maxMoney ++ "," ++ toString st.coreparams.fields.powLimit ++
         "|" ++ joinWith "," outs
   -- standard script → address → text → address → script
   | "c12.conv", [hist, tmpl, payload] => some <| match parseClass? tmpl, parseHex? payload with
